@@ -524,7 +524,11 @@ pub fn tampers(spec: &Spec, rng: &mut Rng, all_bits: bool, out: &mut Vec<Input>)
         out.push(inp("t-byte-edit", "reject", b, kind));
         let mut b = good.clone();
         b.insert(p, rng.next() as u8);
-        out.push(inp("t-byte-insert", "reject", b, kind));
+        // (an inserted byte equal to its right neighbour at the very end would leave the record
+        //  intact with one byte after it, which prefix locality requires to be accepted)
+        if !b.starts_with(&good) {
+            out.push(inp("t-byte-insert", "reject", b, kind));
+        }
         let mut b = good.clone();
         b.remove(p);
         out.push(inp("t-byte-delete", "reject", b, kind));
